@@ -266,9 +266,8 @@ def tasks(tier, seed):
 
 def run_maxlen(acc):
     """the 1 MiB framing boundary: a reply line of exactly MAX_LENGTH bytes is accepted, one byte more drops the connection"""
-    from txtorcon.torcontrolprotocol import TorControlProtocol
-    M = TorControlProtocol.MAX_LENGTH
-    for extra, chunked in ((0, False), (0, True), (1, False), (1, True)):
+    M = 2 ** 20        # the limit the client documents for one reply line (descriptor and consensus answers are long)
+    for extra, chunked in ((0, False), (0, True), (1, False), (1, True), (16385 - M, False), (300000 - M, True)):
         with World() as w:
             ctl = Ctl(w)
             s = ctl.submit('P')
@@ -282,9 +281,9 @@ def run_maxlen(acc):
             else:
                 ctl.wire.deliver(data)
             viol = None
-            if extra == 0:
+            if extra <= 0:
                 if ctl.wire.disconnecting or len(s.rec.fires) != 1 or s.rec.kind != 'ok' or s.rec.value != body:
-                    viol = ('maxlen-line-not-accepted', 'exactly-MAX_LENGTH', 'a %d-byte line: disconnecting=%r fired=%d' % (M, ctl.wire.disconnecting, len(s.rec.fires)))
+                    viol = ('maxlen-line-not-accepted', 'exactly-MAX_LENGTH' if extra == 0 else 'long-line-below-the-limit', 'a %d-byte line: disconnecting=%r fired=%d' % (M + extra, ctl.wire.disconnecting, len(s.rec.fires)))
             else:
                 if not ctl.wire.disconnecting:
                     viol = ('overlong-line-accepted', 'MAX_LENGTH+1', 'a %d-byte line did not drop the connection' % (M + 1))
